@@ -40,7 +40,7 @@ def validate_recording(ctx, events, name, spec_dir, module, parts, key_of, libs=
         os.unlink(p)
         return ok, idx
 
-    with ThreadPoolExecutor(max_workers=min(len(chunks), 6)) as ex:
+    with ThreadPoolExecutor(max_workers=min(len(chunks), 10 if ctx.quick else 6)) as ex:
         results = list(ex.map(run, range(len(chunks))))
     bad = []
     for i, (ok, idx) in enumerate(results):
@@ -92,23 +92,37 @@ def C06(ctx):
     write_ndjson(sp, seqs)
     unit_g = events_of(["reserve", "run"], stdin_path=sp)
     os.unlink(sp)
-    unit_t = events_of(["reserve", "random", "seed=%d" % ctx.seed, "n=%d" % (80 if q else 2000)])
+    unit_t = events_of(["reserve", "random", "seed=%d" % ctx.seed, "n=%d" % (60 if q else 2000)])
+    # deterministic boundary product (both tiers; no seed): (5 parameter classes x 6 tip kinds) x (kind of the last call) x
+    # (balance one atto below / equal to / one atto above what it needs), unit limits -1 / 0 / +1, zero amounts,
+    # contingent-only locks, abort exactly at repayment
+    unit_b = events_of(["reserve", "boundary", "full=%d" % (0 if q else 1)])
+    summary = unit_b.pop()
+    if summary["a"] != "boundary_summary" or summary["sequences"] < 1500:
+        raise ToolError("boundary recording incomplete: %s" % summary)
+    bres = collections.Counter((e["c"]["op"], e["res"]) for e in unit_b if e["a"] == "call")
+    for op, cls in (("consumeExecution", "InsufficientBalance"), ("consumeExecution", "LoanRepaymentFailed"), ("consumeExecution", "LimitExceeded"),
+                    ("consumeExecution", "Abort"), ("consumeFinalization", "InsufficientBalance"), ("consumeFinalization", "LimitExceeded"),
+                    ("consumeStorage", "InsufficientBalance"), ("consumeRoyalty", "InsufficientBalance"), ("repayAll", "LoanRepaymentFailed"),
+                    ("repayAll", "Abort"), ("repayAll", "LimitExceeded"), ("repayAll", "ok"), ("revertRoyalty", "ok")):
+        if bres[(op, cls)] == 0:
+            raise ToolError("vacuous boundary recording: no %s with result %s" % (op, cls))
     hist = events_of(["ledger", "history", "seed=%d" % ctx.seed, "n=%d" % (60 if q else 600)])
-    scen = events_of(["ledger", "scenarios", "max=%d" % (3 if q else 1000)])
+    scen = events_of(["ledger", "scenarios", "max=%d" % (3 if q else 1000)] + (["also=royalties"] if q else []))
     outcomes = [e for e in hist + scen if e["a"] == "outcome"]
     rejected = [e for e in hist if e["a"] == "skipped"]
-    res = collections.Counter(e["res"] for e in unit_g + unit_t if e["a"] == "call")
+    res = collections.Counter(e["res"] for e in unit_g + unit_t if e["a"] == "call")   # (without the boundary recording)
     for cls in ("ok", "InsufficientBalance", "LimitExceeded", "LoanRepaymentFailed", "Abort"):
         if res[cls] == 0:
             raise ToolError("vacuous recording: no call with result " + cls)
     if len(outcomes) < 30 or not any(not e["ok"] for e in outcomes) or not any(len(e["paid"]) >= 2 for e in outcomes):
         raise ToolError("vacuous ledger recording: %d outcomes" % len(outcomes))
-    if not q and not any(e["dest"]["royalties"] for e in outcomes):
+    if not any(len(e["dest"]["royalties"]) >= 2 for e in outcomes):
         raise ToolError("vacuous ledger recording: no royalty payment")
     ctx.sample({"unit_call_event": next(e for e in unit_g if e["a"] == "call" and e["res"] == "ok")})
     ctx.sample({"fee_outcome_event": {k: v for k, v in outcomes[0].items() if k != "p"}})
-    recording = unit_g + unit_t + outcomes
-    validate_recording(ctx, recording, "fee", "FeeReserve", "TraceFeeReserve", 3 if q else 10, fee_key)
+    recording = unit_g + unit_t + unit_b + outcomes
+    validate_recording(ctx, recording, "fee", "FeeReserve", "TraceFeeReserve", 10 if q else 12, fee_key)
     ctx.cov["traces_validated_against_impl"] += sum(1 for e in recording if e["a"] in ("new", "outcome"))
 
     # binding self-test: a wrong balance, a wrong share, a wrong refund must be rejected
@@ -146,9 +160,10 @@ def C06(ctx):
                       % (next(w["outcome"] for w in probe["window"] if w["outcome"].startswith("panic"))[:90], probe["price_attos"],
                          probe["tip_percentage"], probe["boundary_lock_attos"], probe["first_success_minus_boundary"]),
                       {"probe": probe, "controls": [ctl1, ctl2]})
-    distinct = len({json.dumps(s, sort_keys=True) for s in seqs}) + len({e["label"] for e in outcomes}) \
+    distinct = sum(1 for e in unit_b if e["a"] == "new") + len({json.dumps(s, sort_keys=True) for s in seqs}) + len({e["label"] for e in outcomes}) \
         + sum(1 for e in unit_t if e["a"] == "new")
-    return {"exhaustive": True, "distinct_nontrivial": distinct, "unit_events": len(unit_g) + len(unit_t), "unit_call_results": dict(res),
+    return {"exhaustive": True, "distinct_nontrivial": distinct, "unit_events": len(unit_g) + len(unit_t) + len(unit_b), "unit_call_results": dict(res),
+            "boundary_sequences": summary["sequences"], "boundary_call_results": {"%s:%s" % k: v for k, v in sorted(bres.items())},
             "fee_outcomes": len(outcomes), "fee_outcomes_failed_commits": sum(1 for e in outcomes if not e["ok"]),
             "fee_outcomes_with_royalties": sum(1 for e in outcomes if e["dest"]["royalties"]), "history_rejected": len(rejected),
             "info_L3_model": "NoAssertionTripAlways violated for the inexact price family (expected); holds under PriceTipExact",
@@ -157,10 +172,14 @@ def C06(ctx):
                     "parameter sets (exact / inexact price x tip, tips 0 / 1 %% / 50 %% / 1 bp / 12345 bp, loan 0 / 4, credit 0 / 50, abort). "
                     "Unit level: %d call sequences chosen by TLC and %d drawn from the seed at real scale (protocol parameters, 18-digit "
                     "prices, loan 0 / loan = limit, percentage / basis point tips up to the type maximum) run on the real SystemLoanFeeReserve; "
+                    "plus the deterministic boundary product (5 parameter classes x 6 tip kinds) x (last call: execution 1 / loan-1 / loan / "
+                    "loan+1 units, finalization, storage of both types, XRD / USD royalty, explicit and triggered repayment with deferred "
+                    "costs) x (balance 1 atto below / equal to / 1 atto above the need, by locking exactly that or draining by a royalty "
+                    "equal to the balance), unit limits -1 / 0 / +1, zero amounts, contingent-only locks, abort at repayment; "
                     "ledger level: every committed receipt of seeded histories (one / two fee vaults, contingent locks, failing manifests, "
                     "overridden costing parameters) and of %s transaction scenarios; all recorded as limbs and accepted by the specification "
                     "instantiated with BigInt (stateful trace validation); distinct = distinct sequences + outcomes"
-                    % (calls, len(seqs), sum(1 for e in unit_t if e["a"] == "new"), "3" if q else "all (every protocol version)")}
+                    % (calls, len(seqs), sum(1 for e in unit_t if e["a"] == "new"), "the first 3 and the royalties" if q else "all (every protocol version)")}
 
 
 # ---------------------------------------------------------------------------------------------
@@ -171,7 +190,8 @@ def C02(ctx):
     tlc_must_pass(r, "MCTxFailure (NothingButFees, FailureClass)", required_actions=["Step", "LockFee", "ChargeRoyalty", "RepayLoan", "Fail", "Abort", "Finish"])
     ctx.add_tlc(r)
     hist = events_of(["faults", "history", "seed=%d" % ctx.seed, "n=%d" % (10 if q else 60), "points=%d" % (40 if q else 60)])
-    scen = events_of(["faults", "scenarios", "max=%d" % (2 if q else 1000), "every=%d" % (3 if q else 4), "points=%d" % (30 if q else 40)], timeout=6000)
+    scen = events_of(["faults", "scenarios", "max=%d" % (2 if q else 1000), "every=%d" % (3 if q else 4), "points=%d" % (30 if q else 40)]
+                     + (["also=royalties"] if q else []), timeout=6000)
     evs = hist + scen
     receipts = [e for e in evs if e["a"] == "receipt"]
     classes = collections.Counter(e["class"] for e in receipts)
@@ -181,7 +201,7 @@ def C02(ctx):
     panics = [e for e in receipts if e["class"].startswith("panic")]
     for e in panics:
         ctx.violation("fault sweep: panic", "execution panicked with an injected costing error at call %s: %s" % (e["n"], e["class"]), {"event": e})
-    if not q and not any(e["n"] == 0 and e["royalties"] > 0 for e in receipts):
+    if not any(e["n"] == 0 and e["royalties"] > 0 for e in receipts):
         raise ToolError("vacuous fault sweep: no workload transaction pays royalties")
     if not any(e["class"] == "CommitFailure" and e.get("paying", 0) >= 2 for e in receipts):
         raise ToolError("vacuous fault sweep: no committed failure with two fee vaults")
@@ -221,7 +241,7 @@ def C02(ctx):
              ("royalty", lambda bad: cf(bad).__setitem__("royalties", 1)),
              ("order", late_reject))
     if q:
-        items = (items[0], items[3])
+        items = (items[0], items[2], items[3])
     with ThreadPoolExecutor(max_workers=4) as ex:
         for what, ok in ex.map(self_test, items):
             if ok:
@@ -237,7 +257,7 @@ def C02(ctx):
                     "abort_when_loan_repaid; each receipt is projected to (class, classes of touched substates, (event name, emitter "
                     "class), royalty payments) and decided by TraceTxFailure (ReceiptOk, no rejection after a committed failure as the "
                     "injection point moves later); distinct = distinct projected receipts"
-                    % ("10 seeded manifests + every 3rd transaction of 2 scenarios" if q else "60 seeded manifests + every 4th transaction (and every royalty-paying one) of all scenarios at every protocol version",
+                    % ("10 seeded manifests + every 3rd transaction of 2 scenarios and of the royalties scenario (and its royalty-paying one)" if q else "60 seeded manifests + every 4th transaction (and every royalty-paying one) of all scenarios at every protocol version",
                        "every call for N <= 40, else first / last 10 + 40 spread" if q else "every call for N <= 40..60, else first / last 10 + 40..60 spread")}
 
 
